@@ -53,7 +53,8 @@ pub fn ref_storable(c: &ColDef) -> bool {
 
 /// Some(true): the documentation says create_table must succeed; Some(false): must be refused
 pub fn ref_create(name: &str, cols: &[ColDef], exists: bool) -> Option<bool> {
-    let reserved = ["_Tables", "_Columns", "_Validation"].contains(&name);
+    // the three catalog tables exist already; the two pool names would share the pool's streams
+    let reserved = ["_Tables", "_Columns", "_Validation", "_StringPool", "_StringData"].contains(&name);
     if !is_ident(name) || cols.is_empty() || cols.len() > 32 || !cols.iter().any(|c| c.key) || exists || reserved {
         return Some(false);
     }
